@@ -121,9 +121,9 @@ def main(tier, seed, replay=None):
     for i in range(nprog):
         r = random.Random(rng.getrandbits(48))
         k = r.random()
-        if k < 0.15:
+        if k < 0.3:
             p = gproj.gen_illtyped(r)
-        elif k < 0.3:
+        elif k < 0.4:
             t, f = gsyn.gen_file(r, (), ndecl=r.randint(2, 5))
             p = {"name": "syn", "files": {"syn.incn": t}, "entry": "syn.incn", "features": {"gsyn"} | set(list(f)[:3]), "unknown_crate": None}
         else:
